@@ -70,6 +70,11 @@ func collectOverlay(harnessRoot, repoRoot string) (map[string][]byte, map[string
 	for d, name := range pkgDirs {
 		ov[filepath.Join(d, "zz_verif_runtime.go")] = []byte(strings.ReplaceAll(string(rt), "PACKAGE", name))
 	}
+	shared, err := os.ReadFile(filepath.Join(filepath.Dir(harnessRoot), "runtime", "verifrt.go.tmpl"))
+	if err != nil {
+		return nil, nil, err
+	}
+	ov[filepath.Join(repoRoot, "x/go/verifrt/verifrt.go")] = shared
 	return ov, src, nil
 }
 
